@@ -13,6 +13,11 @@
 //! resize (the other rows keep what the buffer holds: kept content or default rows).
 //! `k=e2e ... rr=a-b;c-d;... t=<bits> [dt=u8]`: the Scanner pattern -- score_rows_into of each row range in turn
 //! into ONE buffer; the observation is that of the last range, with `X.ix`, `X.th` in addition.
+//! `<id> k=pad src=sample|text|new ... t=<bits> pssm=<rows>`: the padding clause end to end (see `run_pad`):
+//!     src=sample sd=<seed> bg=<0|1|2> L=<len>   StripedSequence::sample(StdRng::seed_from_u64(sd), background, L)
+//!     src=text L=<len> seq=<ACTGN...>           EncodedSequence::encode(seq).to_striped()
+//!     src=new L=<len> sm=<row/row/...>          StripedSequence::new on a hand-filled matrix (digits = symbol indices)
+//! observation `sR sL q pd` + per scoring pg / ps / pa / dG / dS / dA: `X.R X.mi X.c X.max X.am X.th` (`X.ix`).
 //! `maxi corpus` prints the boundary corpus (same format).
 //! `maxi run` appends ` => key=value ...` with, for every entry point,
 //!     <p>.max  N | <value>        <p>.am  N | <row>:<col> (or an offset)      <p>.th  - | r:c,r:c,...
